@@ -9,10 +9,10 @@ R14.2 object memo `EFLRItem.obname`: every writer of the fields the memoised fun
       copy number) invalidates it (all stores go through __setattr__, which drops the memo for exactly those keys).
 R14.3 class memo (record type byte): per receiving class, from that class's constant (C02 R02.3).
 R14.4 mode flag: saved / restored on every exit, single writer (C17 R17.1, R17.2).
-R14.5 data- or argument-derived values stored into persistent objects by code reachable from DLISFile.write: closed list;
-      each entry is either specification-derived (idempotent default) or a known finding (F-STALE).
-R14.6 nondeterminism sources (random, now, id, hash, environment, set iteration) only where the statement allows:
-      FILE-SET-NUMBER and CREATION-TIME defaults.
+R14.5 (provenance fixpoint, sa/stores.py) no value computed from an argument of write() is stored into an object that
+      outlives the write; the stores found are the known finding F-STALE.
+R14.6 (provenance fixpoint with nondeterminism sources) random / now / id / hash / environment values reach only the
+      FILE-SET-NUMBER and CREATION-TIME defaults (when unset) and nothing on the byte path returns them; no set iteration.
 R14.7 no module- or class-level mutable container is mutated after import.
 R14.8 the memo inventory is closed: {ushort, EFLRItem.obname, LRMeta.lr_type_struct}; any other cache is a violation.
 """
